@@ -519,6 +519,10 @@ int main( int argc, char** argv )
             if ( !connect( c, o, accepted ) ) { ex.report( "", false, o ); continue; }
             const char* const why = invalid_reason( c );
             cls( mc::fmt( "connect/%s/%s", accepted ? "entered" : "ignored", why ? why : "valid" ) );
+            if ( ( rep.evaluations % 997 ) == 5 )
+                rep.sample( mc::fmt( "CONNECT_IND interval=%u latency=%u timeout=%u winSize=%u winOffset=%u sca=%u -> %s (%s)%s", c.interval, c.latency, c.timeout,
+                    c.win_size, c.win_offset, c.sca, accepted ? "entered" : "ignored", why ? why : "valid",
+                    accepted ? mc::fmt( "; first window [%u,%u] us, then all received/missed patterns over %d events", g_ll->log.ce_start_us, g_ll->log.ce_end_us, depth ).c_str() : "" ), 8 );
             if ( accepted && why )
             {
                 fail( o, mc::fmt( "connect-accepted-invalid:%s", why ), mc::fmt( "connection entered although the CONNECT_IND violates: %s; first event scheduled with window [%u,%u] us, interval %u us",
